@@ -139,18 +139,22 @@ Proof.
   - intros j Hj. apply filter_In in Hj. now apply grantedb_In.
 Qed.
 
-Lemma pres_L2 s s' : inv1 s -> Overlap s' -> step s s' ->
+(* under the overlap hypothesis no step elects a second leader of a term *)
+Lemma overlap_noclash s s' : inv1 s -> Overlap s' -> step s s' -> NoClash s s'.
+Proof.
+  intros I O H c Hc Hl. inv_step H; try subst n; simpl in Hl; upd_destr; try congruence.
+  all: try (destruct H0 as [H0|H0]; congruence).
+  eapply (cand_no_leader s _ _ (voters (conf (nodes s _))) I O); simpl; eauto. intros x Hx; now right.
+Qed.
+
+Lemma pres_L2 s s' : inv1 s -> NoClash s s' -> step s s' ->
   forall t c el q c' el' q', In (t, c, el, q) (leaders s') -> In (t, c', el', q') (leaders s') ->
       c = c' /\ el = el' /\ q = q'.
 Proof.
   intros I O H. inv_step H; intros t0 c0 el0 q0 c0' el0' q0' Hin Hin'.
   all: try (in_cons Hin); try (in_cons Hin'); try subst n; try (eapply (i_L2 I); eassumption); auto.
-  - exfalso. eapply (cand_no_leader s _ c0 (voters (conf (nodes s c0))) I O); simpl; eauto.
-    + intros x Hx; now right.
-    + exists c0', el0', q0'. exact Hin'.
-  - exfalso. eapply (cand_no_leader s _ c0' (voters (conf (nodes s c0'))) I O); simpl; eauto.
-    + intros x Hx; now right.
-    + exists c0, el0, q0. exact Hin.
+  - exfalso. eapply (O c0); [exact H0 | simpl; rewrite upd_same; reflexivity | exists c0', el0', q0'; exact Hin'].
+  - exfalso. eapply (O c0'); [exact H0 | simpl; rewrite upd_same; reflexivity | exists c0, el0, q0; exact Hin].
 Qed.
 
 Lemma pres_Cand s s' : inv1 s -> step s s' ->
